@@ -39,14 +39,15 @@ theorem C15_bind_agrees (env : Env) (spec : ArgSpec) (hwf : WF spec) (pos : List
     element, or what stdin held), either the string `s` itself or the value of
     evaluating that same `s`; the latter never in string mode, never for a
     blank string, only when the evaluator produced a value, and in auto mode
-    only when `s` parses as an expression.  The only other delivered values
+    only when `s` parses as an expression (in particular `compile()` did not
+    give up on it with a non-`SyntaxError`).  The only other delivered values
     are the defaults of the function's own parameters. -/
 theorem C15_auto (env : Env) (spec : ArgSpec) (hwf : WF spec) (argv : List Str) (stdin : Str) (mode : Mode)
     (a : List Val) (k : List (Str × Val)) (h : parseAutoApply env spec argv stdin mode = .ok (a, k)) :
     ∀ v ∈ a ++ k.map (·.2),
       (∃ s, FromArgv argv stdin s ∧
         (v = .raw s ∨ (v = .evaluated s ∧ mode ≠ .string ∧ blank s = false ∧ env.outcome s = .value ∧
-                       (mode = .auto → env.parsable s = true)))) ∨
+                       (mode = .auto → env.parsable s = true ∧ env.compileRaises s = false)))) ∨
       (∃ n ∈ spec.names, v = .dflt n) := by
   obtain ⟨p, occ, hs, hb⟩ := parse_ok h
   have hk := scan_keysOk env spec mode argv stdin p occ hs
@@ -253,7 +254,8 @@ theorem C15_rejects_call (env : Env) (spec : ArgSpec) (hwf : WF spec)
 section Witness
 
 /-- ASCII identifiers, every string evaluable; `fix` = with `fixes/C15-D16.diff` -/
-def envW (fix : Bool) : Env := ⟨asciiIdent, fun _ => true, fun _ => .value, fix⟩
+def envW (fix : Bool) : Env :=
+  { isIdent := asciiIdent, parsable := fun _ => true, outcome := fun _ => .value, exactFirst := fix }
 
 /-- `def h(x, xy)` -/
 def specW : ArgSpec := ⟨[['x'], ['x','y']], 0, false, [], [], false⟩
@@ -372,6 +374,15 @@ example : pyBind specW Expr.dflt (callPos specW .string [.opt .ddEq (w "xy") (w 
 
 /-- global options: `py -q --safe f 1+2` -/
 example : globalOpts [w "-q", w "--safe", w "f", w "1+2"] none = .ok ⟨some .string, [w "f", w "1+2"]⟩ := by decide
+
+/-- `compile()` gives up on the second argument (say `"-" * 5000 + "1"`, or a file name with an undecodable
+    byte): auto mode delivers it as the original string, next to an evaluated neighbour, even when the
+    evaluator would have failed on it -/
+example : parseAutoApply
+      { envW false with compileRaises := fun s => s = w "caf?.txt", outcome := fun s => if s = w "caf?.txt" then .error else .value }
+      specE [w "2+3", w "caf?.txt", w "--bar=caf?.txt", w "--key", w "None"] [] .auto =
+    .ok ([.evaluated (w "2+3"), .raw (w "caf?.txt")], [(w "bar", .raw (w "caf?.txt")), (w "key", .evaluated (w "None"))]) := by
+  decide
 
 end Examples
 
